@@ -11,6 +11,46 @@ def source_has_timer():
     return bool(re.search(r"steady_timer|deadline_timer|ASIO_TIMER|expires_after|expires_from_now|async_wait", src)), bool(re.search(r"SO_RCVTIMEO", src))
 
 
+def plumbing(chk):
+    """the configured timeout reaches every accepted socket (it is the only thing the library does with it): the real
+    server over the simulated adaptor with real descriptors, socket options read back from the kernel"""
+    rng = chk.rng
+    hb, hlog = vlib.build_harness("h_sim")
+    if not hb:
+        chk.broken.append("harness h_sim does not compile against the current tree: " + hlog[-600:])
+        return
+    vals = [0, 1, 5, 300, 999, 1000, 1001, 1500, 59999, 2147483, 2147484, 2700000, 3600000, 4300000, 86400000]
+    cases, exps = [], []
+    for _ in range(40 if chk.tier == "quick" else 600):
+        ev, exp, cur = [], [], 0
+        for _ in range(rng.randint(2, 8)):
+            if rng.random() < 0.5:
+                cur = rng.choice(vals)
+                ev.append("Z%d" % cur)
+            else:
+                ev.append("A")
+                exp.append(cur)
+        cases.append("sim tcp timeo=1 %s" % ";".join(ev))
+        exps.append(exp)
+    outs, _ = vlib.run_cases_resilient(hb, cases)
+    n = 0
+    for c, exp, line in zip(cases, exps, outs):
+        got = re.findall(r"c\d+:timeo=(\d+)\.(\d+)/(\d+)\.(\d+)", line)
+        if len(got) != len(exp):
+            chk.violation("accepted sockets whose timeouts could be read back: %d, connections accepted: %d" % (len(got), len(exp)), {"case": c, "impl_log": line[:2000]}, True, "timeout-not-applied")
+            continue
+        for k, (g, want) in enumerate(zip(got, exp)):
+            n += 1
+            for sec, usec in ((int(g[0]), int(g[1])), (int(g[2]), int(g[3]))):
+                ms = sec * 1000 + usec / 1000.0
+                if (want == 0) != (ms == 0) or abs(ms - want) > 10:
+                    chk.violation("connection %d was accepted with set_timeout(%d) in force but its socket timeout is %d.%06d s" % (k + 1, want, sec, usec),
+                                  {"case": c, "impl_log": line[:2000]}, True, "timeout-not-applied")
+                    break
+    chk.cov["evaluations"] += len(cases)
+    chk.cov["timeout_plumbing"] = {"histories": len(cases), "sockets_read_back": n, "values_ms": vals}
+
+
 def run(chk):
     chk.prove("Properties_C20")
     pairs = simcheck.run_sim(chk, only=lambda h: h["name"].startswith("idle ticks") or h["name"] == "sequential")
@@ -36,6 +76,7 @@ def run(chk):
         chk.violation("no transition of the connection is driven by time: a silent connection is never closed, whatever timeout is configured",
                       {"history": "A;T;T;T (accept, then silence)", "source": "include/via/comms/connection.hpp: tcp_timeouts() only sets SO_RCVTIMEO/SO_SNDTIMEO on an asynchronous socket"},
                       True, "no-idle-timer")
+    plumbing(chk)
     chk.assumptions += ["SO_RCVTIMEO / SO_SNDTIMEO do not complete reactor-driven (non-blocking) asynchronous operations on Linux"]
 
 
